@@ -75,7 +75,7 @@ func (m *MapVar) Evaluate(dc *context.DataContext, Vars map[string]reflect.Value
 				if e != nil {
 					return reflect.ValueOf(nil), errors.New(fmt.Sprintf("line %d, column %d, code: %s, %+v", m.LineNum, m.Column, m.Code, e))
 				}
-				return value.Elem().Index(int(wantedKey.Int())), nil
+				return value.Elem().Index(core.GetIndex(wantedKey)), nil
 			}
 
 			if len(m.Strkey) > 0 {
@@ -142,7 +142,7 @@ func (m *MapVar) Evaluate(dc *context.DataContext, Vars map[string]reflect.Value
 				if e != nil {
 					return reflect.ValueOf(nil), errors.New(fmt.Sprintf("line %d, column %d, code: %s, %+v", m.LineNum, m.Column, m.Code, e))
 				}
-				return value.Index(int(wantedKey.Int())), nil
+				return value.Index(core.GetIndex(wantedKey)), nil
 			}
 
 			if len(m.Strkey) > 0 {
